@@ -12,7 +12,7 @@ REQUIRED_A = [
     "pending_is_max_since_last_recv", "firstMax_is_first_of_max_view", "since_without_pop",
     "freshest_vote_survives_queue", "recv_never_panics", "send_never_empties",
     "recvs_deliver_pending_in_order",
-    "gen_selection_eq", "gen_filter_eq", "gen_selection_by_number_only",
+    "gen_selection_eq", "gen_filter_eq", "gen_selection_by_number_only", "gen_send_eq", "gen_bft_send_eq",
 ]
 REQUIRED_B = ["cacheInv_reachable", "commit_views_bounded", "timeout_views_bounded", "commit_qcs_views_bounded",
               "timeout_qcs_views_bounded", "commit_qcs_entries_bounded", "flood_bounded"]
